@@ -104,7 +104,7 @@ def build_traces(path, tier, seed):
         for k0 in ks:
             for ph in (0.0, 1.1):
                 t = np.arange(n)
-                x = np.sin(2 * np.pi * k0 * t / M + ph) * float(rng.choice([1.0, 0.37, 1e-9, 1e-12, 3e6]))   # micro-tremor .. raw counts
+                x = np.sin(2 * np.pi * k0 * t / M + ph) * float(rng.choice([1.0, 0.37, 1e-9, 1e-12, 3e6, 2.0 ** -560, 2.0 ** 515]))   # micro-tremor .. raw counts .. units whose squares leave the double range
                 o = eqsig.AccSignal(x, dt)
                 if (k0 + n) % 2:
                     tr = stockwell.get_max_stockwell_freq(o)
